@@ -120,6 +120,16 @@ func (c *Ctx) Violate(sig, what string) {
 	c.Viol[sig] = &Violation{Sig: sig, What: what, Spec: c.curSpec, Count: 1}
 }
 
+// ViolateWith is Violate with an explicit replay spec (e.g. the exact schedule of one execution).
+func (c *Ctx) ViolateWith(sig, what string, spec any) {
+	if v, ok := c.Viol[sig]; ok {
+		v.Count++
+		return
+	}
+	raw, _ := json.Marshal(spec)
+	c.Viol[sig] = &Violation{Sig: sig, What: what, Spec: raw, Count: 1}
+}
+
 // Expired reports whether the wall-clock guard has passed (the run then ends with exhaustive:false).
 func (c *Ctx) Expired() bool {
 	if !c.Deadline.IsZero() && time.Now().After(c.Deadline) {
